@@ -25,7 +25,7 @@ from simkit.rng import seed_globals  # noqa: E402
 from simkit.world import InvalidScenario, Monitor, Violation, result, run_sim  # noqa: E402
 
 PROPERTY = "C11"
-RUNS = {"quick": 3000, "thorough": 300_000}
+RUNS = {"quick": 2400, "thorough": 300_000}
 WALL = {"quick": 50, "thorough": 1500}
 BATCH = {"quick": 25, "thorough": 200}
 SELFTEST_RUNS = 8
@@ -78,7 +78,7 @@ EXPECTED_PROBES = [
     "probe.revote_refused_after_same_term_append", "probe.longer_follower_reported_only_what_matched",
     "probe.future_of_overwritten_submit_left_unresolved", "probe.earlier_term_entry_committed_under_later_term",
     "probe.same_node_leader_in_two_terms", "probe.five_leader_elections", "probe.next_index_backed_off_3_times",
-    "probe.success_response_of_older_term_reached_leader",
+    "probe.success_response_of_older_term_reached_leader", "probe.reelected_after_a_peer_lost_what_it_had_acknowledged",
     "fault.partition", "fault.crash", "fault.pause", "fault.loss", "fault.restart",
     "fault.msgs_dropped_by_partition", "fault.msgs_dropped_by_loss", "fault.stragglers",
 ]
@@ -126,6 +126,31 @@ def _gen_react(rng, n, et_min, et_max, hb, scale, with_clients, deep=False):
             "len": round(et_max * rng.uniform(0.6, 4.0), 6),
         })
     return rules
+
+
+def _former_leader_episode(rng, sc, et_min, et_max, hb):
+    """Bias towards 'a former leader is elected again': the leader is cut off together with one follower right after it
+    accepted a burst of commands (they reach that follower only), the majority side elects another leader which commits a
+    shorter log and overwrites both after the heal; that leader is then isolated so that the first one can win again."""
+    cut_len = round(et_max * rng.uniform(2.5, 5.0), 6)
+    sc["react"] = [
+        {"on": "append", "nth": rng.randint(1, 3), "every": 0, "delay": 0.0, "kind": "minority", "k": rng.randrange(5), "len": cut_len},
+        {"on": "leader", "nth": 2, "every": rng.choice([0, 1, 2]), "delay": round(cut_len * rng.uniform(0.9, 1.3), 6),
+         "kind": rng.choice(["isolate", "pause", "crash"]), "k": 0, "len": round(et_max * rng.uniform(2.0, 5.0), 6)},
+    ] + sc["react"][:1]
+    # a burst for the leader that is about to be cut off, a trickle afterwards
+    t0 = round(rng.uniform(2 * et_max, 4 * et_max), 6)
+    base = 1000
+    burst = [{"t": round(t0 + j * rng.uniform(0, 0.3 * hb), 6), "to": "leader", "pick": 0, "cmd": base + j} for j in range(rng.randint(3, 7))]
+    later = [{"t": round(t0 + cut_len * rng.uniform(0.4, 0.9), 6), "to": "newest", "pick": j, "cmd": base + 50 + j} for j in range(rng.randint(1, 2))]
+    sc["clients"] = sorted([c for c in sc["clients"] if not (t0 - et_max < c["t"] < t0 + cut_len)] + burst + later,
+                           key=lambda o: (o["t"], o["cmd"]))
+    sc["horizon"] = round(max(sc["horizon"], t0 + 3 * cut_len + 12 * et_max), 6)
+    if rng.random() < 0.7:      # one node with a clear timeout advantage: it leads first and is the likely winner again
+        f = rng.randrange(5)
+        sc["node_et"] = [[et_min, round(et_min * 1.2, 6)] if j == f else [round(et_min * 1.6, 6), round(max(et_max, et_min * 1.7) * 1.5, 6)]
+                         for j in range(5)]
+    sc["episode"] = "former-leader"
 
 
 def gen(rng, tier):
@@ -196,6 +221,8 @@ def gen(rng, tier):
                        "end": round(st + rng.uniform(et_min, horizon * 0.3), 4), "asym": rng.random() < 0.3})
     sc["faults"] = faults
     sc["react"] = _gen_react(rng, n, et_min, et_max, hb, scale, with_clients, deep=klass == "faulty")
+    if klass == "faulty" and n == 5 and rng.random() < 0.35:
+        _former_leader_episode(rng, sc, et_min, et_max, hb)
     return sc
 
 
@@ -231,7 +258,7 @@ def _validate(sc):
     for c in sc.get("clients", []):
         _num(c.get("t"), 0.0, 400, "client.t")
         to = c.get("to")
-        if to != "leader" and (isinstance(to, bool) or not isinstance(to, int) or not 0 <= to < n):
+        if to not in ("leader", "newest") and (isinstance(to, bool) or not isinstance(to, int) or not 0 <= to < n):
             raise InvalidScenario("client.to")
         if c.get("cmd") in seen or c.get("cmd") is None:
             raise InvalidScenario("duplicate cmd")
@@ -383,11 +410,14 @@ class Harness:
     def _client(self, op):
         def fn(ev):
             to = op["to"]
-            if to == "leader":
+            if to in ("leader", "newest"):
                 ls = [j for j, nd in enumerate(self.nodes) if nd.is_leader and not getattr(nd, "_crashed", False)]
                 if not ls:
                     self.c("client.no_leader_to_submit_to")
                     return None
+                if to == "newest":      # the self-believed leader with the highest term
+                    top = max(self.nodes[j].current_term for j in ls)
+                    ls = [j for j in ls if self.nodes[j].current_term == top]
                 j = ls[op.get("pick", 0) % len(ls)]
             else:
                 j = to
